@@ -106,6 +106,47 @@ class VC:
     def ghost(self):
         return self.path.ghost
 
+    # ---- analytic back end (sympy)
+    def sp(self, term, symbols=None):
+        """z3 term / Sym / python number -> sympy expression"""
+        from .tosympy import to_sympy
+        import sympy
+        if symbols is None:
+            symbols = self.path.ghost.setdefault("_sp_symbols", {})
+        if isinstance(term, Sym):
+            return to_sympy(term, symbols)
+        if isinstance(term, float) and term in (INF, -INF):
+            return sympy.oo if term > 0 else -sympy.oo
+        return sympy.nsimplify(term) if isinstance(term, float) else sympy.sympify(term)
+
+    def sp_symbol(self, name, **assumptions):
+        import sympy
+        symbols = self.path.ghost.setdefault("_sp_symbols", {})
+        symbols[name] = sympy.Symbol(name, **assumptions)
+        return symbols[name]
+
+    def check_zero(self, label, expr, sampler=None):
+        """analytic obligation: `expr` (sympy) is identically zero on the region described by `sampler`"""
+        import time as _t
+        from .tosympy import is_zero
+        from .path import ObResult, STATS
+        t0 = _t.time()
+        status, info = is_zero(expr, sampler)
+        dt = _t.time() - t0
+        STATS["sympy_queries"] = STATS.get("sympy_queries", 0) + 1
+        STATS["sympy_time"] = STATS.get("sympy_time", 0.0) + dt
+        res = ObResult(label, status, "sympy", dt, path=tuple(self.path.decisions[: self.path.pos]))
+        if status == "refuted":
+            res.model = info.get("point")
+            res.detail = f"residual {info.get('residual')} at {info.get('point')}"
+            self.path.reached = True
+        elif status == "undecided":
+            res.detail = info.get("why", "")
+        else:
+            res.detail = info.get("method", "")
+        self.path.results.append(res)
+        return status == "proved"
+
 
 def _kw(args):
     """contract methods receive the receiver of a method as `self_`"""
